@@ -158,6 +158,60 @@ def gen_shared_ends(ctx, count):
     return out
 
 
+def _cc_job(pair):
+    return io.curve_curve(pair[0], pair[1])
+
+
+def gen_curve_curve(ctx, count, max_deg=4):
+    """general curve-curve pairs (both degrees >= 2, mixed degrees) whose complete list of common points is certified by the
+    exact resultant / Sturm oracle: random dyadic nets, integer lattice nets (degenerate incidences), nets sharing an end
+    point with touching boxes, planted crossings.  The oracle runs in a process pool (deterministic: inputs come from ctx.rng)."""
+    import multiprocessing as mp
+    rng = ctx.rng
+    pairs = []
+    for _ in range(3 * count):
+        n1, n2 = rng.randint(2, max_deg), rng.randint(2, max_deg)
+        if n1 * n2 > 16:
+            continue
+        fam = rng.choice(["random", "lattice", "touching-end", "touching-end", "planted"])
+        if fam == "random":
+            c1, c2 = rand_curve(rng, n1, 4, 1), rand_curve(rng, n2, 4, 1)
+        elif fam == "lattice":
+            c1 = [[F(rng.randint(0, 4)) for _ in range(n1 + 1)] for _ in range(2)]
+            c2 = [[F(rng.randint(0, 4)) for _ in range(n2 + 1)] for _ in range(2)]
+        elif fam == "touching-end":
+            # first curve left of / below the meeting point, second right of / above it: the boxes touch in a corner or an edge
+            px, py = F(rng.randint(-2, 2)), F(rng.randint(-2, 2))
+            c1 = [[px - F(rng.randint(0, 6), 2) for _ in range(n1)] + [px], [py + F(rng.randint(-6, 6), 2) for _ in range(n1)] + [py]]
+            c2 = [[px] + [px + F(rng.randint(0, 6), 2) for _ in range(n2)], [py] + [py + F(rng.randint(-6, 6), 2) for _ in range(n2)]]
+            if rng.random() < 0.5:
+                c1 = [list(reversed(r)) for r in c1]
+            if rng.random() < 0.5:
+                c2 = [list(reversed(r)) for r in c2]
+            if rng.random() < 0.5:
+                c1, c2 = c2, c1
+            if rng.random() < 0.3:
+                c1, c2 = [c1[1], c1[0]], [c2[1], c2[0]]
+        else:
+            c1, c2 = rand_curve(rng, n1, 4, 1), rand_curve(rng, n2, 4, 1)
+            a, b = F(rng.randint(1, 7), 8), F(rng.randint(1, 7), 8)
+            dx = oq.bernstein(c1[0], a) - oq.bernstein(c2[0], b)
+            dy = oq.bernstein(c1[1], a) - oq.bernstein(c2[1], b)
+            c2 = [[x + dx for x in c2[0]], [y + dy for y in c2[1]]]
+        if not all(F(float(x)) == x for r in c1 + c2 for x in r):
+            continue
+        if len(set(zip(*c1))) < 2 or len(set(zip(*c2))) < 2:
+            continue
+        pairs.append((c1, c2, fam))
+    with mp.Pool(16) as pool:
+        res = pool.map(_cc_job, [(a, b) for a, b, _ in pairs], chunksize=2)
+    out = []
+    for (c1, c2, fam), r in zip(pairs, res):
+        if r is not None and len(out) < count:
+            out.append({"c1": c1, "c2": c2, "expected": list(r), "kind": "curve-curve:" + fam})
+    return out
+
+
 def intersect_args(strategy):
     return lambda c: [enc_arr(c["c1"]), enc_arr(c["c2"]), strategy]
 
